@@ -5,6 +5,7 @@ import (
 	"go/ast"
 	"go/token"
 	"go/types"
+	"os"
 	"strings"
 
 	"golang.org/x/tools/go/packages"
@@ -16,15 +17,19 @@ func init() {
 }
 
 func checkC10(c *Ctx, r *Report) {
+	checkSharedStores(c, r, "oned", 10) // check-digit computations use no shared scratch state (also C18)
+
 	checkUPCTables(c, r)
 	checkMod10(c, r)
 	checkUPCEUses(c, r)
 	checkUPCEExpand(c, r)
+	checkUPCEParityLookup(c, r)
 	checkUPCEANReaderEnforces(c, r)
 	checkUPCEANWritersEnforce(c, r)
 	checkCode128Checksum(c, r)
 	checkCode93Checksum(c, r)
 	checkExtensions(c, r)
+	checkCode39Constructors(c, r)
 	r.Note("not decided: that every single substitution is caught (a property of the code's minimum distance over all symbols); zero-suppression inverse beyond the expansion table")
 }
 
@@ -143,6 +148,52 @@ func checkLAndGInit(c *Ctx, r *Report) {
 		return
 	}
 	r.Analysed(key)
+	// the whole initialiser folded: whatever its loops look like, the table it leaves behind is compared with the
+	// reference (L patterns followed by their reversals); the shape matcher below is the fallback
+	if lpInit, lpp := c.varInitOfObj(lp); lpInit != nil {
+		env := map[types.Object]*Val{lp: c.eval(lpp, lpInit), lg: {K: VNil}}
+		rr := &rpf{c: c, p: p, env: env, unroll: 1000, curFn: fd}
+		var ferr error
+		func() {
+			defer func() {
+				if x := recover(); x != nil {
+					if re, ok := x.(*rpfErr); ok {
+						ferr = re
+						return
+					}
+					panic(x)
+				}
+			}()
+			rr.block(fd.Body.List)
+		}()
+		if ferr == nil && env[lg] != nil && env[lg].K == VList {
+			bad := ""
+			if len(env[lg].L) != 20 {
+				bad = fmt.Sprintf("the table has %d rows, expected the 10 L and the 10 G patterns", len(env[lg].L))
+			}
+			for i := 0; i < 20 && bad == ""; i++ {
+				row, ok := listInts(env[lg].L[i])
+				if !ok || len(row) != 4 {
+					bad = fmt.Sprintf("row %d is not four widths", i)
+					break
+				}
+				for j := 0; j < 4; j++ {
+					want := refEANL[i%10][j]
+					if i >= 10 {
+						want = refEANL[i-10][3-j]
+					}
+					if row[j] != want {
+						bad = fmt.Sprintf("row %d (%s pattern of digit %d): element %d = %d, expected %d", i, map[bool]string{false: "L", true: "G"}[i >= 10], i%10, j, row[j], want)
+					}
+				}
+			}
+			r.Check(bad == "", "T-UPCEAN", key, c.pos(fd.Pos()), bad)
+			return
+		}
+		if os.Getenv("GZ_DEBUG") != "" {
+			fmt.Fprintln(os.Stderr, "T-UPCEAN init fold:", ferr, env[lg])
+		}
+	}
 	bad := ""
 	// make(.., 20) and copy(LG, L)
 	okMake, okCopy := false, false
@@ -1425,4 +1476,144 @@ func code93WholeFold(c *Ctx, fd *ast.FuncDecl, p *packages.Package) string {
 		}
 	}
 	return ""
+}
+
+// T-UPCEPARITY-USE: the UPC-E reader's parity lookup covers both number systems and all ten check digits
+func checkUPCEParityLookup(c *Ctx, r *Report) {
+	r.Rule("T-UPCEPARITY-USE", "determineNumSysAndCheckDigit, folded on the reference parity table (GS1 General Specifications, UPC-E), answers for each of the twenty parity patterns the number system (0 or 1) in the first character and the check digit appended, and not-found for a pattern outside the table: the reader recognises number-system-1 symbols as well", 1)
+	fd, p := c.funcDeclOf("oned", "determineNumSysAndCheckDigit")
+	key := "oned.determineNumSysAndCheckDigit"
+	if fd == nil {
+		r.AnchorLost("T-UPCEPARITY-USE", key, "function not found")
+		return
+	}
+	r.Analysed(key)
+	tbl := c.lookupObj("oned", "upce_NUMSYS_AND_CHECK_DIGIT_PATTERNS")
+	if tbl == nil {
+		r.AnchorLost("T-UPCEPARITY-USE", key, "parity table not found")
+		return
+	}
+	tv := &Val{K: VList}
+	for ns := 0; ns < 2; ns++ {
+		row := &Val{K: VList}
+		for d := 0; d < 10; d++ {
+			x := refUPCEParity0[d]
+			if ns == 1 {
+				x ^= 0x3F
+			}
+			row.L = append(row.L, vint(x))
+		}
+		tv.L = append(tv.L, row)
+	}
+	bad := ""
+	try := func(pattern int64, wantNS, wantD int64) {
+		if bad != "" {
+			return
+		}
+		in := &Val{K: VList, Local: true}
+		for i := 0; i < 7; i++ {
+			in.L = append(in.L, &Val{K: VInt, I: int64('5'), T: types.Typ[types.Byte]})
+		}
+		h := &rpf{unroll: 64, callHook: errCtorHook}
+		res, err := c.rpfCallWithGlobals(fd, p, []*Val{in, vint(pattern)}, h, map[types.Object]*Val{tbl: tv})
+		if err != nil {
+			bad = fmt.Sprintf("?pattern %#x: %v", pattern, err)
+			return
+		}
+		if len(res) != 2 {
+			bad = "?unexpected result shape"
+			return
+		}
+		if wantNS < 0 {
+			if res[1].K == VNil {
+				bad = fmt.Sprintf("parity pattern %#x is in no row of the table but is accepted", pattern)
+			}
+			return
+		}
+		if res[1].K != VNil {
+			bad = fmt.Sprintf("parity pattern %#x (number system %d, check digit %d) is not recognised", pattern, wantNS, wantD)
+			return
+		}
+		out, ok := listInts(res[0])
+		if !ok || len(out) != 8 || out[0] != int64('0')+wantNS || out[7] != int64('0')+wantD {
+			bad = fmt.Sprintf("parity pattern %#x: result %q; expected number system %d first and check digit %d last", pattern, bytesOf(out), wantNS, wantD)
+		}
+	}
+	for ns := int64(0); ns < 2; ns++ {
+		for d := int64(0); d < 10; d++ {
+			x := refUPCEParity0[d]
+			if ns == 1 {
+				x ^= 0x3F
+			}
+			try(x, ns, d)
+		}
+	}
+	try(0x00, -1, -1)
+	try(0x3F, -1, -1)
+	reportFold(r, c, "T-UPCEPARITY-USE", key, fd.Pos(), bad)
+}
+
+func bytesOf(xs []int64) string {
+	b := make([]byte, 0, len(xs))
+	for _, x := range xs {
+		b = append(b, byte(x))
+	}
+	return string(b)
+}
+
+// M-C39CTOR: the Code 39 constructors configure what their names and parameters say
+func checkCode39Constructors(c *Ctx, r *Report) {
+	r.Rule("M-C39CTOR", "the Code 39 reader constructors, folded from source down to the struct they build: NewCode39Reader() verifies no check character and reads no extended sequences; NewCode39ReaderWithCheckDigitFlag(b) verifies the check character exactly when b is set and reads no extended sequences; NewCode39ReaderWithFlags(a, b) sets the two in that order - a reader asked to verify the mod-43 check character does verify it", 3)
+	type tc struct {
+		fn        string
+		args      []bool
+		chk, extd bool
+	}
+	var cases []tc
+	cases = append(cases, tc{"NewCode39Reader", nil, false, false})
+	for _, a := range []bool{false, true} {
+		cases = append(cases, tc{"NewCode39ReaderWithCheckDigitFlag", []bool{a}, a, false})
+		for _, b := range []bool{false, true} {
+			cases = append(cases, tc{"NewCode39ReaderWithFlags", []bool{a, b}, a, b})
+		}
+	}
+	badBy := map[string]string{}
+	for _, cs := range cases {
+		key := "oned." + cs.fn
+		fd, p := c.funcDeclOf("oned", cs.fn)
+		if fd == nil {
+			r.AnchorLost("M-C39CTOR", key, "constructor not found")
+			badBy[key] = "-"
+			continue
+		}
+		if badBy[key] != "" {
+			continue
+		}
+		r.Analysed(key)
+		var args []*Val
+		for _, a := range cs.args {
+			args = append(args, vbool(a))
+		}
+		h := &rpf{unroll: 64, effectCalls: true}
+		res, err := c.rpfCall(fd, p, args, h)
+		switch {
+		case err != nil:
+			badBy[key] = "?" + err.Error()
+		case len(res) != 1 || res[0].K != VStruct || res[0].Fields["usingCheckDigit"] == nil || res[0].Fields["extendedMode"] == nil:
+			badBy[key] = "?the constructor does not fold to a code39Reader value"
+		default:
+			gc, ge := res[0].Fields["usingCheckDigit"], res[0].Fields["extendedMode"]
+			if gc.K != VBool || ge.K != VBool || gc.B != cs.chk || ge.B != cs.extd {
+				badBy[key] = fmt.Sprintf("%s%v builds a reader with check-character verification %v and extended mode %v; expected %v and %v", cs.fn, cs.args, valString(gc), valString(ge), cs.chk, cs.extd)
+			}
+		}
+	}
+	for _, fn := range []string{"NewCode39Reader", "NewCode39ReaderWithCheckDigitFlag", "NewCode39ReaderWithFlags"} {
+		key := "oned." + fn
+		if badBy[key] == "-" {
+			continue
+		}
+		fd, _ := c.funcDeclOf("oned", fn)
+		reportFold(r, c, "M-C39CTOR", key, fd.Pos(), badBy[key])
+	}
 }
